@@ -97,7 +97,7 @@ func r08_13(c *Ctx, rule string) {
 			c.R.Check(fresh, rule, c.siteName(call)+"/fresh-message", c.pos(call), "sends a packet allocated for this send", "the message sent here is not a packet allocated for this send (it is kept in a field, a captured variable or a global and re-used): concurrent senders overwrite it between filling it in and the locked write, so one id is sent twice and another never")
 		})
 	}
-	c.R.Floor(rule, "SendMsg sites in package fsutil", n, 8)
+	c.R.Floor(rule, "SendMsg sites in package fsutil", n, 1)
 }
 
 // R08.1: all sends are serialised.
